@@ -73,7 +73,11 @@ def sensitivity(ids):
     for d in sorted(glob.glob(os.path.join(VERIF, "seeded", "*"))):
         if os.path.exists(os.path.join(d, "patch.diff")):
             meta = json.load(open(os.path.join(d, "meta.json")))
-            items.append((os.path.basename(d), os.path.join(d, "patch.diff"), meta["breaks_property"]))
+            if meta.get("expected_miss"):
+                continue  # outside the claimed properties (see meta.json / DESIGN section 8)
+            # "checks": the checks that catch it when that is not the check of the property it names
+            for prop in meta.get("checks", [meta["breaks_property"]]):
+                items.append((os.path.basename(d), os.path.join(d, "patch.diff"), prop))
     for p in sorted(glob.glob(os.path.join(VERIF, "mutants", "*.patch"))):
         name = os.path.basename(p)[:-6]
         items.append((name, p, name.split("-")[0].upper()))
